@@ -176,6 +176,9 @@ func newFragment(path, index, field, view string, shard uint64, flags byte) *fra
 		stats: stats.NopStatsClient,
 	}
 	f.snapshotCond = sync.Cond{L: &f.mu}
+	if n := verifPoint("fragment.new.maxopn", shard, 0); n != 0 {
+		f.MaxOpN = int(n)
+	}
 	return f
 }
 
@@ -194,6 +197,7 @@ func newSnapshotQueue(n int, w int, l logger.Logger) chan *fragment {
 
 func snapshotQueueWorker(snapshotQueue chan *fragment, l logger.Logger) {
 	for f := range snapshotQueue {
+		verifPoint("fragment.snapshot.worker", f.shard, 0)
 		err := f.protectedSnapshot(true)
 		if err != nil {
 			l.Printf("snapshot error: %v", err)
